@@ -11,8 +11,10 @@ import (
 	"fmt"
 	"os"
 	"os/exec"
+	"runtime"
 	"sort"
 	"strings"
+	"sync"
 	"time"
 
 	"github.com/dgraph-io/badger/v4"
@@ -33,6 +35,8 @@ type H struct {
 	Rejected     string
 	tmp          string
 	recPath      string
+	wg           sync.WaitGroup
+	hints        map[string]int
 	// crash replay
 	windowOpen bool
 	hits       int
@@ -61,7 +65,17 @@ func NewReplay(path string) (*H, *Record, error) {
 	if err := json.Unmarshal(b, r); err != nil {
 		return nil, nil, err
 	}
-	return &H{vals: r.Model, params: r.Params, counts: map[string]int{}, recPath: path, crashAt: -1}, r, nil
+	h := &H{vals: r.Model, params: r.Params, counts: map[string]int{}, recPath: path, crashAt: -1, hints: map[string]int{}}
+	for _, n := range r.Notes {
+		// "preempt at point:NAME: thread a -> b"
+		if strings.HasPrefix(n, "preempt at point:") {
+			rest := strings.TrimPrefix(n, "preempt at point:")
+			if k := strings.Index(rest, ":"); k > 0 {
+				h.hints[rest[:k]]++
+			}
+		}
+	}
+	return h, r, nil
 }
 
 func NewFromModel(m map[string]uint64) *H { return &H{vals: m, counts: map[string]int{}} }
@@ -285,9 +299,70 @@ func (h *H) FireTimer(name string, wait time.Duration) bool {
 }
 
 // SymbolicSched turns on symbolic scheduling with the given preemption bound.
-func (h *H) SymbolicSched(preemptions int) {}
+// Natively the recorded preemption points (notes of the replay record) are
+// turned into pauses: a goroutine reaching such a verifhook.Point sleeps so
+// that the others overtake it, as in the recorded schedule.
+func (h *H) SymbolicSched(preemptions int) {
+	if len(h.hints) == 0 {
+		return
+	}
+	var mu sync.Mutex
+	perG := map[string]map[string]int{} // goroutine -> boundary -> hits
+	verifhook.SetCallback(func(name string) {
+		g := goroutineID()
+		mu.Lock()
+		if perG[g] == nil {
+			perG[g] = map[string]int{}
+		}
+		perG[g][name]++
+		key := fmt.Sprintf("%s#%d", name, perG[g][name])
+		n := h.hints[key]
+		if n > 0 {
+			h.hints[key] = n - 1
+		}
+		mu.Unlock()
+		if n > 0 {
+			time.Sleep(300 * time.Millisecond)
+		}
+	})
+}
+
+func goroutineID() string {
+	buf := make([]byte, 64)
+	buf = buf[:runtime.Stack(buf, false)]
+	// "goroutine 123 [running]:"
+	f := strings.Fields(string(buf))
+	if len(f) >= 2 {
+		return f[1]
+	}
+	return "?"
+}
 
 func (h *H) Yield() {}
+
+// Go starts f as a goroutine of the harness (an interpreter thread under gosx,
+// scheduled symbolically after SymbolicSched). Wait blocks until all of them
+// have finished; natively it reports false if they are still stuck after the
+// timeout (a deadlock), under gosx a deadlock is reported by the engine.
+func (h *H) Go(f func()) {
+	h.wg.Add(1)
+	go func() {
+		defer h.wg.Done()
+		f()
+	}()
+}
+
+func (h *H) Wait() bool {
+	done := make(chan struct{})
+	go func() { h.wg.Wait(); close(done) }()
+	select {
+	case <-done:
+		return true
+	case <-time.After(5 * time.Second):
+		h.Failed = append(h.Failed, "deadlock: harness goroutines still blocked after 5s")
+		return false
+	}
+}
 
 // StubJWT tells the gosx model of jwt.ParseWithClaims which token shape the
 // next parse sees (no effect natively, where a real token is parsed).
